@@ -174,23 +174,25 @@ def run(chk: core.Check) -> None:
 # ---------------------------------------------------------------------------------------
 
 
-def build_table(rng, w, h):
+def build_table(rng, w, h, ragged=False):
     from odfdo import Table, Row, Cell
 
     t = Table("T")
     vals = []
+    # ragged: rows stored shorter than the table is wide (what set_value / set_cell naturally leave): reads complete them
     for y in range(h):
         row = Row()
         rv = []
         x = 0
-        while x < w:
-            rep = min(rng.choice([1, 1, 2, 3]), w - x)
+        wy = w if (not ragged or y == 0) else rng.randint(1, w)
+        while x < wy:
+            rep = min(rng.choice([1, 1, 2, 3]), wy - x)
             v = rng.choice([None, f"v{y}_{x}", x * 10 + y])
             row.append_cell(Cell(v, repeated=rep if rep > 1 else None))
             rv += [v] * rep
             x += rep
         t.append_row(row)
-        vals.append(rv)
+        vals.append(rv + [None] * (w - len(rv)))
     return t, vals
 
 
@@ -206,8 +208,10 @@ def table_part(chk: core.Check) -> None:
         w = rng.randint(1, 7)
         h = rng.randint(1, 6)
         tb, vals = build_table(rng, w, h)
+        tr, rvals = build_table(rng, w, h, ragged=True)
         if rng.random() < 0.5:
             tb = Element.from_tag(tb.serialize())
+            tr = Element.from_tag(tr.serialize())
         full = tb.get_values()
         if full != vals:
             chk.fail({"op": "build", "xml": tb.serialize()}, "get_values differs from the built matrix")
@@ -227,6 +231,13 @@ def table_part(chk: core.Check) -> None:
                 checks.append(("get_cell", (c1.get_value(), c1.x, c1.y), (c2.get_value(), c2.x, c2.y), (vals[y][x], x, y)))
                 checks.append(("get_values", tb.get_values(area_s), tb.get_values((x, y, z, t)), sub(vals, x, y, z, t)))
                 checks.append(("get_values_neg", tb.get_values((x - w, y - h, z - w, t - h)), tb.get_values((x, y, z, t)), sub(vals, x, y, z, t)))
+                # the same area of a RAGGED table (rows stored shorter than the table is wide): get_values and its iterator form
+                # complete the rows; string / tuple / negative / partial (columns only, rows only) forms
+                checks.append(("get_values (ragged)", tr.get_values(area_s), tr.get_values((x, y, z, t)), sub(rvals, x, y, z, t)))
+                checks.append(("iter_values (ragged)", [list(r) for r in tr.iter_values(area_s)], [list(r) for r in tr.iter_values((x, y, z, t))], sub(rvals, x, y, z, t)))
+                checks.append(("iter_values_neg (ragged)", [list(r) for r in tr.iter_values((x - w, y - h, z - w, t - h))], tr.get_values((x, y, z, t)), sub(rvals, x, y, z, t)))
+                checks.append(("get_values(columns) (ragged)", tr.get_values(f"{ref_d2a(x)}:{ref_d2a(z)}"), [list(r) for r in tr.iter_values(f"{ref_d2a(x)}:{ref_d2a(z)}")], sub(rvals, x, 0, z, h - 1)))
+                checks.append(("get_values(rows) (ragged)", tr.get_values(f"{y + 1}:{t + 1}"), [list(r) for r in tr.iter_values(f"{y + 1}:{t + 1}")], sub(rvals, 0, y, w - 1, t)))
                 g1 = [[c.get_value() for c in r] for r in tb.get_cells(area_s)]
                 g2 = [[c.get_value() for c in r] for r in tb.get_cells((x, y, z, t))]
                 checks.append(("get_cells", g1, g2, sub(vals, x, y, z, t)))
